@@ -151,7 +151,12 @@ def gen_case(rng):
                                header=rng.choice(["plain", "casava", "lengthtag"]), qual_profile=rng.choice(["decay", "mixed", "high"]),
                                revcomp_some="--revcomp" in opts)
     interleaved_in = paired and rng.random() < 0.25
-    return dict(paired=paired, opts=opts, io=io, recs1=recs1, recs2=recs2 if paired else None, fasta_out=fasta, interleaved_in=interleaved_in)
+    # FASTA input (only with FASTA outputs and without quality-based options)
+    fasta_in = fasta and not any(o in opts for o in ("-q", "--max-ee", "--nextseq-trim")) and rng.random() < 0.7
+    if fasta_in and paired and rng.random() < 0.5:
+        interleaved_in = True
+    return dict(paired=paired, opts=opts, io=io, recs1=recs1, recs2=recs2 if paired else None, fasta_out=fasta, interleaved_in=interleaved_in,
+                fasta_in=fasta_in)
 
 
 def snapshot_dir(d):
@@ -200,12 +205,14 @@ def one_case(ctx, k):
     d = os.path.join(ctx.scratch, f"c{k}")
     os.makedirs(d, exist_ok=True)
     try:
+        fmt = "fasta" if c.get("fasta_in") else "fastq"
+        ctx.count("input_format:" + fmt + (" interleaved" if c["interleaved_in"] else ""))
         if c["interleaved_in"]:
             inter = [x for pair in zip(c["recs1"], c["recs2"]) for x in pair]
-            inputs = climon.write_inputs(d, inter, None, names=("inter", "unused"))
+            inputs = climon.write_inputs(d, inter, None, names=("inter", "unused"), fmt=fmt)
             io = c["io"] if "--interleaved" in c["io"] else ["--interleaved"] + c["io"]
         else:
-            inputs = climon.write_inputs(d, c["recs1"], c["recs2"])
+            inputs = climon.write_inputs(d, c["recs1"], c["recs2"], fmt=fmt)
             io = c["io"]
         rel_inputs = ["../" + x for x in inputs]
         base = c["opts"] + ["--json", "rep.json"] + io + rel_inputs
